@@ -652,6 +652,9 @@ func (c *rcComp) Run(args []string) string {
 	if len(args) == 6 && args[0] == "new" && args[1] == "poll" {
 		return c.pollRun(args) // Close while Poll calls are in flight (rc_poll.go)
 	}
+	if len(args) == 3 && args[0] == "new" && args[1] == "pxr" {
+		return c.pxrRun(args) // a Poll in flight across a second Subscribe, then Close (rc_pxr.go)
+	}
 	if len(args) == 4 && args[0] == "new" && args[1] == "gf" {
 		return c.gfRun(args) // client.NewImpl = getFirst over several client types (rc_gf.go)
 	}
@@ -1172,6 +1175,9 @@ func (c *rcComp) Gen(r *rand.Rand, tier string) []string {
 	if r.Intn(10) == 0 {
 		return rpGen(r) // Close while Poll calls are in flight (rc_poll.go)
 	}
+	if r.Intn(25) == 0 {
+		return []string{"new pxr " + strconv.Itoa(1+r.Intn(30)), "ret", "mon"} // rc_pxr.go
+	}
 	for {
 		mode := []string{"rb", "rb", "rb", "rc", "rc", "b", "c"}[r.Intn(7)]
 		rec := mode == "rb" || mode == "rc"
@@ -1290,5 +1296,8 @@ func (c *rcComp) Exhaustive(tier string) [][]string {
 	}
 	out = append(out, gfExhaustive(tier)...) // getFirst over several client types (rc_gf.go)
 	out = append(out, rpExhaustive(tier)...) // Close while Poll calls are in flight (rc_poll.go)
+	for _, k := range []int{1, 2, 3, 6, 17} { // a Poll in flight across a second Subscribe, then Close (rc_pxr.go)
+		out = append(out, []string{"new pxr " + strconv.Itoa(k), "ret", "mon"})
+	}
 	return out
 }
